@@ -16,6 +16,7 @@ import (
 	"encoding/json"
 	"encoding/pem"
 	"fmt"
+	"go.step.sm/crypto/minica"
 	"math/big"
 	"net/http"
 	"net/http/httptest"
@@ -64,15 +65,22 @@ type env struct {
 	// AWS: the key and certificate (crypto/rsa, a PEM file named by iidRoots) that sign instance identity documents for the
 	// provisioners "awst" (trust on first use: the id is the instance) and "awsr" (disabled: the id is the hash of the token)
 	awsKey *rsa.PrivateKey
+	// X5C: a root of the harness (the provisioner's roots), a client certificate under it and its key: sign x5c tokens (provisioner "x5c")
+	x5cChain []string
+	x5cKey   crypto.Signer
 	// an SSH host certificate of the CA and its key: signs SSHPOP tokens (provisioner "sshpop")
 	sshCert *ssh.Certificate
 	sshKey  *ecdsa.PrivateKey
 }
 
 var (
-	awsOnce sync.Once
-	awsKey  *rsa.PrivateKey
-	awsDir  string // removed by main when the stage ends
+	x5cOnce    sync.Once
+	x5cCA      *minica.CA
+	x5cLeaf    *x509.Certificate
+	x5cLeafKey *ecdsa.PrivateKey
+	awsOnce    sync.Once
+	awsKey     *rsa.PrivateKey
+	awsDir     string // removed by main when the stage ends
 )
 
 const oidcClient = "verif-client"
@@ -130,8 +138,20 @@ func newEnvAdmin(hasDB, noChk, admin bool, hooks *ss.Hooks) *env {
 	iid := filepath.Join(awsDir, "iid.pem")
 	awst := &provisioner.AWS{Type: "AWS", Name: "awst", Accounts: []string{"123456789012"}, IIDRoots: iid}
 	awsr := &provisioner.AWS{Type: "AWS", Name: "awsr", Accounts: []string{"123456789012"}, IIDRoots: iid, DisableTrustOnFirstUse: true}
+	// X5C: tokens signed by a certificate under a root of the harness's own
+	x5cOnce.Do(func() {
+		x5cCA = must(minica.New(minica.WithName("VerifX5C")))
+		x5cLeafKey = must(ecdsa.GenerateKey(elliptic.P256(), rand.Reader))
+		tpl := &x509.Certificate{Subject: pkix.Name{CommonName: "x5c-client"}, DNSNames: []string{"x5c-client.example.com"}, KeyUsage: x509.KeyUsageDigitalSignature,
+			ExtKeyUsage: []x509.ExtKeyUsage{x509.ExtKeyUsageClientAuth}, PublicKey: x5cLeafKey.Public()}
+		x5cLeaf = must(x5cCA.Sign(tpl))
+	})
+	e.x5cKey = x5cLeafKey
+	e.x5cChain = []string{base64.StdEncoding.EncodeToString(x5cLeaf.Raw), base64.StdEncoding.EncodeToString(x5cCA.Intermediate.Raw)}
+	yesSSH := true
+	x5cProv := &provisioner.X5C{Type: "X5C", Name: "x5c", Roots: pem.EncodeToMemory(&pem.Block{Type: "CERTIFICATE", Bytes: x5cCA.Root.Raw}), Claims: &provisioner.Claims{EnableSSHCA: &yesSSH}}
 	e.provs = provisioner.List{
-		azt, azr, gcpt, gcpr, awst, awsr,
+		azt, azr, gcpt, gcpr, awst, awsr, x5cProv,
 		&provisioner.ACME{Type: "ACME", Name: "acme"},
 		&provisioner.SSHPOP{Type: "SSHPOP", Name: "sshpop"},
 		&provisioner.OIDC{Type: "OIDC", Name: "oidc", ClientID: oidcClient,
